@@ -600,3 +600,51 @@ pub fn replay_report(prop: &str, path: &str, run: &dyn Fn(&J) -> Vec<Failure>) -
     }
     rc
 }
+
+// ---------------------------------------------------------------------------------------------
+// stateright BFS over input histories: a state is the history (sequence of alphabet indexes) that reaches it;
+// the oracle is evaluated on every state by replaying the history against the real engine.
+
+pub struct HistModel<F: Fn(&[u8]) + Send + Sync + 'static> {
+    pub k: u8,
+    pub max: usize,
+    pub check: F,
+}
+
+impl<F: Fn(&[u8]) + Send + Sync + 'static> stateright::Model for HistModel<F> {
+    type State = Vec<u8>;
+    type Action = u8;
+    fn init_states(&self) -> Vec<Self::State> {
+        vec![vec![]]
+    }
+    fn actions(&self, state: &Self::State, actions: &mut Vec<Self::Action>) {
+        if state.len() < self.max {
+            for a in 0..self.k {
+                actions.push(a);
+            }
+        }
+    }
+    fn next_state(&self, state: &Self::State, action: Self::Action) -> Option<Self::State> {
+        let mut s = state.clone();
+        s.push(action);
+        Some(s)
+    }
+    fn properties(&self) -> Vec<stateright::Property<Self>> {
+        vec![stateright::Property::always("oracle (discrepancies are recorded, never short-circuit)", |m: &HistModel<F>, s: &Vec<u8>| {
+            (m.check)(s);
+            true
+        })]
+    }
+}
+
+pub struct HistStats {
+    pub unique_states: u64,
+    pub generated: u64,
+    pub max_depth: u64,
+}
+
+pub fn run_hist<F: Fn(&[u8]) + Send + Sync + 'static>(k: u8, max: usize, threads: usize, check: F) -> HistStats {
+    use stateright::{Checker, Model};
+    let checker = HistModel { k, max, check }.checker().threads(threads).spawn_bfs().join();
+    HistStats { unique_states: checker.unique_state_count() as u64, generated: checker.state_count() as u64, max_depth: checker.max_depth() as u64 }
+}
